@@ -186,14 +186,23 @@ Variable rk : node -> nat.
 (** the executions of the running operation are justified: a node executed since the state [s0]
     at which the operation started was not stored then, or held an observation that is not the
     from-scratch value any more *)
-Definition JustAt (s0 : state) (inp : inputs) (m : node) : Prop :=
+(** inputs and external inputs: no dependencies, their value is the environment's *)
+Definition leaf (n : node) : Prop := nkind n = KInput \/ nkind n = KExternal.
+Definition leaf_val (env : menv) (n : node) : option Z :=
+  match nkind n with
+  | KInput => input_get (fst env) (nidx n)
+  | KExternal => snd env (nidx n)
+  | _ => None
+  end.
+
+Definition JustAt (s0 : state) (inp : menv) (m : node) : Prop :=
   get_info s0 m = None \/
   exists i cal x, get_info s0 m = Some i /\ obsV i cal x /\ ~ MSpecI p inp cal x.
 
-Record MInvE (s0 : state) (Ex : node -> Prop) (X : list node) (inp : inputs) (s : state) : Prop := {
+Record MInvE (s0 : state) (Ex : node -> Prop) (X : list node) (inp : menv) (s : state) : Prop := {
   mi_kind : forall n i, get_info s n = Some i ->
-     (nkind n = KInput /\ i_fwd i = [] /\ i_obs i = [] /\ i_tfc i = [] /\
-      input_get inp (nidx n) = Some (i_value i))
+     (leaf n /\ i_fwd i = [] /\ i_obs i = [] /\ i_tfc i = [] /\
+      leaf_val inp n = Some (i_value i))
      \/ (is_mexec_kind (nkind n) = true /\ exists e l, alookup p n = Some e /\ evr (obsV i) e (i_value i) l /\
           (forall d, In d (all_callees (i_fwd i)) <-> In d l));
   mi_obs : forall n i d, get_info s n = Some i -> In d (all_callees (i_fwd i)) ->
@@ -227,21 +236,27 @@ Record MInvE (s0 : state) (Ex : node -> Prop) (X : list node) (inp : inputs) (s 
   mi_U : forall m, sverified s m \/ get_info s m = get_info s0 m;
   mi_O : forall m i, get_info s m = Some i ->
            In m (s_log s) \/ exists i0, get_info s0 m = Some i0 /\ forall d x, obsV i d x <-> obsV i0 d x;
+  (* external inputs: one that is not stored yet would get the world's current answer *)
+  mi_W : forall k, get_info s (ext_node k) = None -> snd inp k = Some (world_get s k);
+  mi_ext : forall e, In e (s_ext s) -> nkind e = KExternal;
 }.
 
 Hypothesis Hrk : forall n e d, alookup p n = Some e -> In d (expr_reads e) -> (rk d < rk n)%nat.
 
-Lemma MInv_init : forall Ex, MInvE init_state Ex [] [] init_state.
+Definition init_env : menv := ([], fun k => Some (world_get init_state k)).
+Lemma MInv_init : forall Ex, MInvE init_state Ex [] init_env init_state.
 Proof.
   intro Ex. split; try (intros; discriminate); try (intros; contradiction).
   - intros n d. cbn. tauto.
   - intros n [i [H _]]. discriminate.
   - intros n F [i [H _]]. discriminate.
   - intro m. right. reflexivity.
+  - intros k _. reflexivity.
 Qed.
 
 Lemma MInv_same2 : forall s0 s0' Ex X inp s s',
   s_nodes s' = s_nodes s -> s_bwd s' = s_bwd s -> s_dirty s' = s_dirty s -> s_ts s' = s_ts s ->
+  s_world s' = s_world s -> s_ext s' = s_ext s ->
   (s_visited s' = s_visited s \/ s_visited s' = []) ->
   (forall m, In m (s_log s') -> JustAt s0' inp m) ->
   (forall m, sverified s' m \/ get_info s' m = get_info s0' m) ->
@@ -249,7 +264,7 @@ Lemma MInv_same2 : forall s0 s0' Ex X inp s s',
      In m (s_log s') \/ exists i0, get_info s0' m = Some i0 /\ forall d x, obsV i d x <-> obsV i0 d x) ->
   MInvE s0 Ex X inp s -> MInvE s0' Ex X inp s'.
 Proof.
-  intros s0 s0' Ex X inp s s' Hn Hb Hd Ht Hv HJ HU HO HI.
+  intros s0 s0' Ex X inp s s' Hn Hb Hd Ht Hw Hxt Hv HJ HU HO HI.
   assert (Hg : forall m, get_info s' m = get_info s m) by (intro m; unfold get_info; rewrite Hn; reflexivity).
   assert (Hf : forall m, old_fwd s' m = old_fwd s m) by (apply msn_fwd; exact Hg).
   assert (Hc : forall m, callers_of s' m = callers_of s m) by (intro m; unfold callers_of; rewrite Hb; reflexivity).
@@ -283,19 +298,22 @@ Proof.
   - exact HJ.
   - exact HU.
   - exact HO.
+  - intros k. rewrite Hg. unfold world_get. rewrite Hw. apply mi_W0.
+  - intros e. rewrite Hxt. apply mi_ext0.
 Qed.
 
 
 Lemma MInv_same : forall s0 Ex X inp s s',
   s_nodes s' = s_nodes s -> s_bwd s' = s_bwd s -> s_dirty s' = s_dirty s -> s_ts s' = s_ts s ->
+  s_world s' = s_world s -> s_ext s' = s_ext s ->
   (s_visited s' = s_visited s \/ s_visited s' = []) ->
   (forall m, In m (s_log s') -> In m (s_log s) \/ JustAt s0 inp m) ->
   (forall m, In m (s_log s) -> In m (s_log s')) ->
   MInvE s0 Ex X inp s -> MInvE s0 Ex X inp s'.
 Proof.
-  intros s0 Ex X inp s s' Hn Hb Hd Ht Hv HlJ HlO HI.
+  intros s0 Ex X inp s s' Hn Hb Hd Ht Hw Hx Hv HlJ HlO HI.
   assert (Hg : forall m, get_info s' m = get_info s m) by (intro m; unfold get_info; rewrite Hn; reflexivity).
-  apply (MInv_same2 s0 s0 Ex X inp s s' Hn Hb Hd Ht Hv); [| | |exact HI].
+  apply (MInv_same2 s0 s0 Ex X inp s s' Hn Hb Hd Ht Hw Hx Hv); [| | |exact HI].
   - intros m Hm. destruct (HlJ m Hm) as [K|K]; [eapply mi_J; eauto|exact K].
   - intro m. rewrite Hg. destruct (mi_U _ _ _ _ _ HI m) as [K|K]; [left; apply (msn_verified _ _ Hg Ht); exact K|right; exact K].
   - intros m i. rewrite Hg. intro Hi. destruct (mi_O _ _ _ _ _ HI m i Hi) as [K|K]; [left; apply HlO; exact K|right; exact K].
@@ -304,7 +322,7 @@ Qed.
 Lemma MInv_log_push : forall s0 Ex X inp s n, MInvE s0 Ex X inp s -> JustAt s0 inp n ->
   MInvE s0 Ex X inp (set_log s (n :: s_log s)).
 Proof.
-  intros s0 Ex X inp s n H HJ. eapply MInv_same; [| | | | | | |exact H]; try reflexivity.
+  intros s0 Ex X inp s n H HJ. eapply MInv_same; [| | | | | | | | |exact H]; try reflexivity.
   - left. reflexivity.
   - intros m [<-|Hm]; [right; exact HJ|left; exact Hm].
   - intros m Hm. right. exact Hm.
@@ -313,10 +331,11 @@ Qed.
 (** a new operation starts: the bookkeeping is relative to the state with the emptied log *)
 Lemma MInv_rebase : forall s0 Ex X inp s s',
   s_nodes s' = s_nodes s -> s_bwd s' = s_bwd s -> s_dirty s' = s_dirty s -> s_ts s' = s_ts s ->
+  s_world s' = s_world s -> s_ext s' = s_ext s ->
   (s_visited s' = s_visited s \/ s_visited s' = []) -> s_log s' = [] ->
   MInvE s0 Ex X inp s -> MInvE s' Ex X inp s'.
 Proof.
-  intros s0 Ex X inp s s' Hn Hb Hd Ht Hv Hl HI. apply (MInv_same2 s0 s' Ex X inp s s' Hn Hb Hd Ht Hv); [| | |exact HI].
+  intros s0 Ex X inp s s' Hn Hb Hd Ht Hw Hx Hv Hl HI. apply (MInv_same2 s0 s' Ex X inp s s' Hn Hb Hd Ht Hw Hx Hv); [| | |exact HI].
   - intros m Hm. rewrite Hl in Hm. destruct Hm.
   - intro m. right. reflexivity.
   - intros m i Hi. right. exists i. split; [exact Hi|]. intros. reflexivity.
